@@ -41,6 +41,8 @@ class Lib:
 
     def __init__(self, h, names=None):
         self.h = h
+        from .harness import history
+        history.tour(h.env)     # earlier use of twin lots in this process (see harness/history.py)
         S = h.env.Substance
         cfg = h.env.config
         self.subs = {}
